@@ -397,9 +397,25 @@ def run(ctx):
                 meta.append(None)
     progs = gen_programs(rng, 900 if th else 110)
     lexed = L.lex_texts(judge, [t for t, _ in progs])
+    # a few programs with more declarations than any round number a server might cap its answers at (130 .. 260 globals)
+    nbig = 3 if th else 1
+    bigs = []
+    for _ in range(nbig):
+        bp = []
+        for i in range(rng.randrange(90, 140)):
+            bp.append(("type", "ty%03d" % i, ("named", "int") if i % 3 else ("array", "2", ("named", "int"))))
+        for i in range(rng.randrange(90, 160)):
+            bp.append(("proc", "helper%03d" % i, [(False, "a", ("named", "int"))][:i % 2], [("v", ("named", "int"))],
+                       [("assign", ("name", "v"), ("lit", "1"))]))
+        bp.append(("proc", "main", [], [("x", ("named", "int"))], [("assign", ("name", "x"), ("lit", "1")), ("assign", ("name", "x"), ("lit", "2"))]))
+        bigs.append((L.render_program(bp, rng, comments=0.0, newline="\n"), bp))
+    big_lexed = L.lex_texts(judge, [t for t, _ in bigs])
+    progs, lexed = progs + bigs, lexed + big_lexed
     for (text, prog), toks in zip(progs, lexed):
         occs, infos, scope = splscope.analyse(prog)
         pts = positions_of(text, prog, toks, rng)
+        if len(prog) >= 100:
+            pts = rng.sample(pts, min(len(pts), 40))
         rnd = random_positions(text, rng, 12)
         jobs.append((text, [(l, c) for l, c, *_ in pts] + rnd))
         meta.append((prog, infos, scope, [p[2:] for p in pts] + [None] * len(rnd), toks))
